@@ -208,6 +208,13 @@ class AdapterModel:
                             gone = lab[2] if lab[1][1].endswith("is_none") else (not lab[2])
                             self.tails.setdefault(sb, {})[tgt] = gone
                             self.tail_sites[sb] = lab[1][3]        # where the probe was EVALUATED (it may be tested much later)
+                    elif lab[0] == "variant" and lab[2] in ("None", "Some"):
+                        # a plain `match stream { None => .., Some(_) => .. }` on the upstream Option itself (through shared borrows)
+                        x = strip_refs(lab[1])
+                        while x[0] == "proj" and x[2] and x[2][-1] == "*":
+                            x = ("proj", x[1], x[2][:-1]) if len(x[2]) > 1 else strip_refs(x[1])
+                        if x[0] == "proj" and x[2] and x[2][-1] == ".stream" and not any(True for _ in expr_calls(x) if (_[1] or "").endswith("as_pin_mut")):
+                            self.tails.setdefault(sb, {})[tgt] = (lab[2] == "None")
 
     def _guard_var_is_fresh(self, local, sb):
         """The guard is a bool local tested at block sb: between each of its definitions and the test nothing pushes into or
